@@ -261,6 +261,9 @@ def c12(tier, seed):
         {'line': 'mkdir d .hid d/.hs; touch d/x d/.h .hid/x d/.hs/x; ./pargs */*/x', 'files': pop, 'expect_stdout': _argv(['*/*/x']), 'area': 'expand_glob:hidden-directory'},
         {'line': 'mkdir d .hid; touch d/x .hid/x .hid/y; ./pargs .hid/* .h*/y', 'files': pop, 'expect_stdout': _argv(['.hid/x', '.hid/y', '.hid/y']), 'area': 'expand_glob:hidden-directory:spelled-out'},
         {'line': 'mkdir d; touch d/.only; ./pargs L d/* R', 'files': pop, 'expect_stdout': _argv(['L', 'd/*', 'R']), 'area': 'expand_glob:only-hidden-matches'},
+        # unmatched `{` around a group: they stay as they are, the group inside is expanded -- and it takes no time
+        {'line': './pargs ' + '{' * 30 + 'a,b} {a,{b} {a{,b} x{{a,b},c}y {a,b}{ {{{a,b},c}', 'files': pop,
+         'expect_stdout': _argv(['{' * 29 + 'a', '{' * 29 + 'b', '{a,{b}', '{a', '{ab', 'xay', 'xby', 'xcy', 'a{', 'b{', '{a', '{b', '{c']), 'timeout': 5, 'area': 'expand_brace:unmatched-nesting'},
         {'line': 'mkdir -p t/m; touch t/m/.hid t/m/v1 t/m/v2; ./pargs t/m/* $HOME/t/m/v*', 'files': pop, 'expect_stdout_prefix': _argv(['t/m/v1', 't/m/v2']), 'expect_stdout_not_contains': '.hid', 'area': 'expand_glob:hidden-file-in-a-deeper-directory'},
     ]
     return out
@@ -749,7 +752,7 @@ def c05(tier, seed):
     n = 3 if tier == 'quick' else 4
     fixed = ['> f', '<', '2>&1', 'ls | > f', 'echo $(echo >)', 'echo {2147483646..2147483647}', '99999999999999999999 + 1', '2 ^ 64', '2 ^ -1',
              'echo `', 'echo $(', 'echo ${', 'echo "', "echo '", 'a=', '=a', 'A="', "B='", 'export C="', "export D='", 'A="" B=\'\'', "alias e=' '; e; echo after", "alias nop='# nothing'; nop x | cat", '\\ ', 'echo a;\\ ;echo b', 'true&&\\\\\\ ',
-             '170141183460469231731687303715884105728 - 1', '-170141183460469231731687303715884105729 + 1', 'cd a b', 'alias', 'unalias', 'export', 'source', 'fg', 'bg', 'exec', 'exit x; echo no',
+             '170141183460469231731687303715884105728 - 1', '-170141183460469231731687303715884105729 + 1', 'echo ' + '{' * 40 + 'a,b}', 'echo ' + '{' * 200 + 'a,b}' + '}' * 100, 'echo ' + '{a,' * 60, 'cd a b', 'alias', 'unalias', 'export', 'source', 'fg', 'bg', 'exec', 'exit x; echo no',
              '(', ')', '((', '))', '{', '}', '$', '$$$', '\\', '&&', '||', ';;', '| |', '& &', 'echo {1..}', 'echo {..1}', 'echo {a..b}', 'echo {1..2..0}',
              '1 +', '+ 1', '1 / 0', '(1', '1)', '2 ^ 99999', '1.5.5 + 1', 'é' * 50, 'echo ' + 'a' * 5000, 'echo ' + ' '.join(['x'] * 500)]
     allc = [''.join(t) for k in range(1, n + 1) for t in itertools.product(alpha, repeat=k)]
